@@ -73,6 +73,13 @@ def build_node(nspec: dict):
         x = _mk_input(nspec.get("input", "const"))
         outs = inline(_INLINE_MODEL)(x=x)
         return next(iter(outs.values()))._op
+    if kind == "inline0":  # node-less pass-through model: its outputs are its inputs
+        from harness import lib_vpprog as P
+        from spox import inline
+
+        x = _mk_input(nspec.get("input", "const"))
+        outs = inline(P._passthrough_model("i64", (2,)))(x=x)
+        return next(iter(outs.values()))._op
     if kind == "real":
         name = nspec["op"]
         a = L.const_var("i64", (2,), 7)
@@ -307,6 +314,19 @@ def gen_cases(rng, thorough: bool) -> list:
                   {"raise": {"isExc": True, "id": 4}}, {"raise": {"isExc": False, "id": 0}}):
             for inp in ("const", "arg"):
                 add(sel, {"kind": "inline", "input": inp}, b)
+    # (7b) inlined node-less pass-through model fed with a constant: every fault at session creation / run
+    x_ok = A("i64", [2], 14)
+    for sel in sels + ["none"]:
+        for at in ("init", "run"):
+            for i in range(len(L.EXC_CLASSES)):
+                add(sel, {"kind": "inline0"}, {"raise": {"isExc": True, "id": i}}, at)
+            add(sel, {"kind": "inline0"}, {"raise": {"isExc": False, "id": 0}}, at)
+        for b in ({"names": ["x"], "vals": [x_ok]}, {"names": ["x"], "vals": [A("f64", [2], 3)]},
+                  {"names": ["x"], "vals": [{"r": "list", "xs": [x_ok, x_ok]}]}, {"names": ["q"], "vals": [x_ok]},
+                  {"names": ["x"], "vals": []}, {"names": ["x"], "noniterable": True},
+                  {"names": ["x"], "vals": [{"r": "ragged"}]}, {"names": ["x"], "vals": [{"r": "scalar", "dt": "i64", "pid": 1}]}):
+            for inp in ("const", "arg", "init"):
+                add(sel, {"kind": "inline0", "input": inp}, b)
     # (8) seeded random: random declared types x random (possibly nested) results x names
     n_rand = 1500 if thorough else 250
     for _ in range(n_rand):
